@@ -415,14 +415,14 @@ NPART = 8
 
 
 def gen_s5(tier):
-    bound = 1 if tier == "quick" else 2
-
     def g():
         for part in range(NPART):
-            yield ("s5", (20, 17), "YX", 4096, 1, bound, part)
-            yield ("s5", (17, 20), ("SYX", 2), 1, 2, bound, part)
+            yield ("s5", (20, 17), "YX", 4096, 1, 1, part)
+            yield ("s5", (17, 20), ("SYX", 2), 1, 2, 1, part)
             if tier == "thorough":
                 yield ("s5", (33, 20), ("YXS", 3), 1, 1, 1, part)
+                # two deviations only on a graph small enough for the quadratic blow-up (about 25 tasks)
+                yield ("s5", (17, 16), "YX", 1, 2, 2, part)
 
     return g
 
@@ -480,7 +480,7 @@ def slices(tier):
         e1.Slice("s3-blocksize-chunking", gen_s3(tier), run_s3, "blocksize lists x source chunkings"),
         e1.Slice("s4-spill", gen_s4(tier), run_s4, "spill size x writes per chunk x parts dir"),
         e1.Slice("s5-task-orders", gen_s5(tier), run_s5, "E3b: all task orders within the deviation bound (8 partitions "
-                 "of the schedule tree per graph)", shards=24),
+                 "of the schedule tree per graph)", shards=32),
     ]
 
 
@@ -492,7 +492,7 @@ def main(ctx):
     )
     ctx.bounds = dict(shapes=SHAPES, layouts=[str(x) for x in LAYOUTS], blocksizes=[str(b) for b in BLOCKS],
                       src_chunks=SRC_CHUNKS, spill=[1, 4096, 20000, 20 << 20], writes_per_chunk=[1, 2, 3, 5],
-                      deviation_bound=1 if ctx.tier == "quick" else 2)
+                      deviation_bound="1 (thorough: 2 on the smallest graph)")
     ctx.assumptions = [
         "rasterio/GDAL and tifffile are independent, trusted decoders",
         "band-first stacks whose shape is ambiguous (x size 3 or 4, or (bands, rows) == image shape) are outside the domain: "
